@@ -2,7 +2,7 @@
 from __future__ import annotations
 
 from .. import gen, tlc, units
-from ..core import Ctx, Result, Violation, digest, write_replay
+from ..core import Ctx, Result, add_violation, digest
 from ..tlc import MachineryError
 
 
@@ -18,8 +18,8 @@ def book_units(ctx, res, cases, verdicts, st, *, nontrivial, sample_keys):
         if v["v"][0] == "ok":
             n_ok += 1
         elif v["v"][0] == "FAIL":
-            replay = write_replay(ctx.prop, {"kind": "unit", "property": ctx.prop, "case": c, "verdict": v})
-            res.violations.append(Violation(v["v"][1], replay, f"case {c['cid']}: {v['v'][2][:300]}"))
+            add_violation(ctx, res, v["v"][1], {"kind": "unit", "property": ctx.prop, "case": c, "verdict": v},
+                          f"case {c['cid']}: {v['v'][2][:300]}")
     res.merge_cov(evaluations=len(cases), traces_validated_against_impl=n_ok, states=st["distinct"],
                   transitions=st["generated"], tlc_runs=st["tlc_runs"])
     res.coverage.setdefault("_seen", set()).update(seen)
